@@ -363,7 +363,7 @@ def c03(ctx):
     rows, probs = r_table.builtin_rows(prog, reg_model(ctx))
     for fb, c, w in probs:
         obs.append(bad('TOP', 'TOP|eval|%s' % fb.name, w, c.where(), body=fb.name))
-    obs += r_top.rule_top(prog, rows)
+    obs += r_top.with_views(prog, r_top.rule_top, rows)
     obs += r_top.with_views(prog, r_top.rule_aggr, rows)
     obs += r_top.with_views(prog, r_top.rule_unary, rows)
     obs += r_top.with_views(prog, r_top.rule_fold, rows)
@@ -454,7 +454,7 @@ def c09(ctx):
     rows, probs = r_table.builtin_rows(prog, reg_model(ctx))
     for fb, c, w in probs:
         obs.append(bad('TOP', 'TOP|eval|%s' % fb.name, w, c.where(), body=fb.name))
-    obs += [o for o in r_top.rule_top(prog, rows) if o.status != 'violated' or any(('`%s`' % k) in o.what for k in ('+', '-', '*', '/', '%', '<', '<=', '>', '>=', '==', '!=', '+=', '-=', '*=', '/=', '%=')) or 'floor' in o.key or 'cover' in o.key]
+    obs += [o for o in r_top.with_views(prog, r_top.rule_top, rows) if o.status != 'violated' or any(('`%s`' % k) in o.what for k in ('+', '-', '*', '/', '%', '<', '<=', '>', '>=', '==', '!=', '+=', '-=', '*=', '/=', '%=')) or 'floor' in o.key or 'cover' in o.key]
     return obs, {'analysed': {'number_path_bodies': len(bodies)}}
 
 
